@@ -11,6 +11,7 @@ Range(s) == {s[i] : i \in 1..Len(s)}
 AssocClauses(a) ==
      F(~a.aborted /\ a.error # "", "an-undisturbed-association-completes-without-error")
   \o F(\E i \in 1..Len(a.requests) : a.requests[i].answered /\ a.requests[i].rmid # a.requests[i].mid, "answered-with-its-own-message-id")
+  \o F(\E i \in 1..Len(a.requests) : a.requests[i].answered /\ a.requests[i].rinst # a.requests[i].sentInst, "answered-about-its-own-instance")
   \o F(\E i \in 1..Len(a.requests) : a.requests[i].answered /\ a.requests[i].gotD # a.requests[i].sentD, "handler-saw-this-associations-own-data")
   \o F(\E i \in 1..Len(a.requests) : a.requests[i].answered /\ (a.requests[i].gotInst # a.requests[i].sentInst \/ a.requests[i].gotClient # a.client),
        "handler-saw-this-associations-own-instance")
